@@ -1,6 +1,10 @@
-"""C40: see vf/cfgobs.py (spec MethodCFG / MethodCFGMC / MethodCFG_Trace)."""
-from ..cfgobs import run_property
+"""C40: block / payload-link offsets (vf/cfgobs.py, spec MethodCFG*) and cross-reference offsets (vf/xrefrun.py, spec Xref*)."""
+from ..cfgobs import run_property as run_cfg
+from ..xrefrun import run_property as run_xref
 
 
 def run(chk):
-    run_property(chk, "C40")
+    run_cfg(chk, "C40")
+    bounds = dict(chk.bounds)
+    run_xref(chk, "C40")
+    chk.bounds = dict(blocks_and_payload_links=bounds, xref_offsets=chk.bounds)
